@@ -34,7 +34,7 @@ pub struct Scenario {
 pub struct C01;
 
 pub fn gen_rng_mode(rng: &mut SimRng, allow_healthy: bool) -> RngMode {
-    let k = if allow_healthy { rng.below(10) } else { 2 + rng.below(8) };
+    let k = if allow_healthy { rng.below(12) } else { 2 + rng.below(10) };
     match k {
         0 | 1 => RngMode::Healthy(rng.next_u64()),
         2 => RngMode::AllZero,
@@ -49,7 +49,9 @@ pub fn gen_rng_mode(rng: &mut SimRng, allow_healthy: bool) -> RngMode {
             rng.fill(&mut v);
             RngMode::Replay(hex::encode(v))
         },
-        _ => RngMode::ConstantByte(0xED), // 0xEDED.. is >= the group order in every 32-byte window
+        9 => RngMode::ConstantByte(0xED), // 0xEDED.. is >= the group order in every 32-byte window
+        10 => RngMode::ZeroBlockAt(rng.range(1, 9) as usize, rng.next_u64()),
+        _ => RngMode::RepeatBlockAt(rng.range(2, 9) as usize, rng.next_u64()),
     }
 }
 
@@ -378,7 +380,7 @@ impl Check for C01 {
             "capacity_gt_m", "m_ge_8", "zero_round_proof", "bits_64", "seed_present", "promise_eq_value",
             "value_max", "value_zero", "ext_1", "ext_2", "ext_3", "ext_4", "ext_5", "ext_6", "bits_1", "bits_2",
             "bits_4", "bits_8", "bits_16", "bits_32", "rng_all_zero", "rng_all_ones", "rng_constant_byte",
-            "rng_short_period", "rng_counter", "rng_stuck_after", "rng_replay", "batch_context",
+            "rng_short_period", "rng_counter", "rng_stuck_after", "rng_replay", "rng_zero_block_at", "rng_repeat_block_at", "batch_context",
         ];
         if tier == Tier::Thorough {
             v.push("bits_64");
